@@ -44,10 +44,25 @@ type Faulty struct {
 	HonourCtx bool
 
 	failDelete int // 1: the next Delete is lost on the way in; 2: it is applied, its reply is lost
+	createN    int
+	failCreate map[int]int // k-th Create (1-based): 1 request lost, 2 applied but the reply is lost
 
 	createArmed  bool
 	CreateHeld   chan struct{} // closed when the held Create is parked (before it is applied)
 	CreateResume chan struct{} // close to let it go
+}
+
+// FailCreate makes the k-th (1-based) Create fail: its request is lost (applied=false) or its reply is.
+func (f *Faulty) FailCreate(k int, applied bool) {
+	f.mu.Lock()
+	if f.failCreate == nil {
+		f.failCreate = map[int]int{}
+	}
+	f.failCreate[k] = 1
+	if applied {
+		f.failCreate[k] = 2
+	}
+	f.mu.Unlock()
 }
 
 // FailNextDelete makes the next Delete fail: its request is lost (applied=false) or its reply is.
@@ -115,10 +130,21 @@ func (f *Faulty) Create(ctx context.Context, r kvs.Record) (string, error) {
 	f.mu.Lock()
 	hold, held, resume := f.createArmed, f.CreateHeld, f.CreateResume
 	f.createArmed = false
+	f.createN++
+	fc := f.failCreate[f.createN]
 	f.mu.Unlock()
 	if hold {
 		close(held)
 		<-resume
+	}
+	if fc == 1 {
+		f.log(Event{Op: "create", Key: r.Key, Err: ErrInjected})
+		return "", ErrInjected
+	}
+	if fc == 2 {
+		f.Inner.Create(ctx, r)
+		f.log(Event{Op: "create", Key: r.Key, Applied: true, Err: ErrInjected})
+		return "", ErrInjected
 	}
 	v, err := f.Inner.Create(ctx, r)
 	f.log(Event{Op: "create", Key: r.Key, Applied: true, Err: err})
